@@ -37,10 +37,22 @@ def run(F, R):
     true_e = [(a, b) for (a, b, tr) in av if tr]
     false_e = [(a, b) for (a, b, tr) in av if not tr]
     if not true_e:
+        # the same test spelled over the apps themselves (`get_apps().iter().all(|a| a.valid())`) inside the running task
+        av = sm.bool_edges(S, lambda n, t: "App::valid" in fmt_t(t) or ("AppSet::get_apps" in fmt_t(t) and "Iterator::all" in fmt_t(t)))
+        true_e = [(a, b) for (a, b, tr) in av if tr]
+        false_e = [(a, b) for (a, b, tr) in av if not tr]
+    elsewhere = []
+    if not true_e:
         # the running task does not test all_valid(): is the test made somewhere else and its answer carried in?
         in_task = set(cx.bv.id for cx in S.ctxs)
         elsewhere = sorted(b["id"] for b in c.bodies if b["id"] not in in_task and "::tests" not in b["id"] and "::test_" not in b["id"]
                            and any(t.get("name") == "all_valid" and (t.get("trait") or "").endswith("AppSetExt") for _, t in BV.of(b).calls()))
+        if not elsewhere:
+            # no test of the live app set at all in the task: what does the task branch on before its first effect?
+            r0 = reach(S, [entry], cut_edges=[])
+            eff = [x for x in r0 if S.ev[x] and S.ev[x][0] == "env" and S.ev[x][1] in ("Http", "Installer", "Policy")]
+            if eff:
+                elsewhere = ["<no test of the live app set's validity before the first policy question>"]
         if elsewhere:
             R.violation("C05-R1", "gate", "the validity of the app set is decided outside the running task (%s) and not when the task starts: an app set that is invalid by the time the "
                         "machine runs is not caught by the gate" % elsewhere[0].split("::")[-3:], None)
